@@ -549,7 +549,11 @@ def explains(broken_item, found):
     # the case files cannot be evaluated; the cause is the translator item itself, which is matched below
     if "was not found in the current environment" in b or "case file did not evaluate" in b or b.startswith("proof obligation: build failed"):
         return True
-    table = [(("fresh", "default", "reset_parameters", "transcendental node"), ("default-not-identity", "fresh")),
+    table = [(("composite_flags_traced", "seqgrid", "grid flags", "undeformed lattice"), ("grid-flag", "imagetransformer.forward:sequence")),
+             (("dense_paths_traced", '"kind": "nonrigid"', "'kind': 'nonrigid'", "grid_reshape", "grid_sample"),
+              (".disp:nonrigid", "forward:nonrigid:grid-flag", "imagetransformer.forward:nonrigid", "differs-from-point-map")),
+             (("generic_order_traced", "generic_fresh"), ("genericspatialtransform",)),
+             (("fresh", "default", "reset_parameters", "transcendental node"), ("default-not-identity", "fresh")),
              (("multilevel", "ml_", "ml2"), ("multilevel",)),
              (("sequential", "seq2", "seq_", "grid flags", "undeformed lattice"), ("sequential", "grid-flag", "imagetransformer.forward:sequence")),
              (("grid_reshape", "grid_sample", "align_corners flag"), (".disp", "forward:grid-flag", "imagetransformer")),
@@ -580,10 +584,15 @@ MANIFEST_ENTRY = {
             "two-grid maps); dense field on grids with the same cube frame describes that map (other domains/flags refuted); non-rigid: exact on "
             "index-affine fields, resizing == interpolating on same-domain lattices; (3) SequentialTransform.tensor of any number of members (induction) "
             "= members applied in listed order; MultiLevelTransform = x + sum of member displacements for any number of members, both the generic loop "
-            "and the linear branch (sum of the member matrices - (k-1) I; inductions), members left unchanged (generated fact); (4) ImageTransformer output = image at the source index of T(world(x_j)) for any transform/target/source grids (2-D, 3-D; "
-            "linear T; index-affine image cells); resize-instead-of-interpolate for non-lattice targets refuted. Tie: translator unit Transform "
+            "and the linear branch (sum of the member matrices - (k-1) I; inductions), members left unchanged (generated fact); generic loops of SequentialTransform/MultiLevelTransform.forward for any member list with the grid flag reaching member 0 only (traced flag table); "
+            "(4) ImageTransformer output = image at the source index of T(world(x_j)) for any transform/target/source grids (2-D, 3-D; "
+            "linear T; index-affine image cells); with a sequence whose first member is a dense field on same-domain target lattices of any size = "
+            "pull-back by the composition of point maps; resize-instead-of-interpolate for non-lattice targets refuted; own-grid disp of a strided "
+            "buffer = resize model = point map on the lattice (2-D, 3-D, all sizes; traced flags/shapes reaching grid_reshape/grid_sample); "
+            "generic configurable transform: traced constructor, composition order = notation, fresh linear configurations = identity. Tie: translator unit Transform "
             "(real spatial/*.py code executed symbolically, structural checks of all argument plumbing) + correspondence (model run in Coq over Qc).",
-    "note": "Partial: GenericSpatialTransform by implementation-side search only; non-rigid models exact for index-affine fields only, otherwise by "
+    "note": "Partial: GenericSpatialTransform: constructor traced for 13 configurations (FFD/SVFFD components and dict/callable parameters by "
+            "implementation-side search only); non-rigid models exact for index-affine fields only, otherwise by "
             "correspondence on the displacement buffer (how the buffer is computed belongs to C11/C13/C14); fold structure of composites beyond 4 "
             "members by induction on the model + numeric correspondence up to 6. Trusted: Coq kernel, vm_compute, symtorch incl. nn.Module shims, "
             "Sampler model of grid_sample/interpolate, float rounding, 12-decimal rounding of pre-mapped coordinates.",
